@@ -1418,7 +1418,7 @@ func runC05(r *Run, rng *Rng, tier string) error {
 	if err := linkChainCases(r, diskParent, &defs); err != nil {
 		return err
 	}
-	nVisit := 160
+	nVisit := 100
 	if tier == "thorough" {
 		nVisit = 1500
 	}
